@@ -95,7 +95,7 @@ Matches(p, e) == p.x = e.x /\ (e.x \in {"pingack", "settingsack"} \/ (p.c = e.c 
 T_Env ==
   /\ Cur.ev = "recv" /\ ~div
   /\ \/ (Cur.x = "goaway" /\ Cur.c = "NO" /\ ~\E k \in 1..Len(pend) : pend[k].x = "goaway" /\ pend[k].c = "NO")
-     \/ (Cur.x = "response" /\ Cur.sid \in OddSids /\ st.ss[Cur.sid] \in {"open", "hcr"})
+     \/ Cur.x = "response"      \* a 5xx of sozu's own (backend trouble); responses to released requests are `respond` events
   /\ div' = TRUE
   /\ Consume /\ UNCHANGED <<st, hist, pend, alts, devs>>
 
